@@ -429,24 +429,51 @@ def native(gname, case, v):
 
 
 def native_fold(d, texts, multi, payload):
-    """the same items split over files a0.rs.. in every way (<= 24 assignments): all outputs must be byte-identical"""
+    """the same items split over files m0.rs.. in every way (<= 24 assignments): all outputs must be byte-identical.
+    The real binary runs pinned to one CPU (reproducible arrival order); if it shows no difference, the library
+    pipeline (real parser, `+=`, reconcile_aliases, generate_types) is driven with explicit arrival orders."""
     k = len(texts)
     perms = list(itertools.permutations(range(k)))[:24]
-    seen = {}
-    for pi, perm in enumerate(perms):
-        files = {"m%d.rs" % slot: texts[i] for slot, i in enumerate(perm)}
-        tree = {"a": dict(files, **{"lib.rs": "// crate a\n"})}
+    btext = "".join("#[typeshare]\npub struct T%s { pub f1%d: u32 }\n" % (ch, j) for j, ch in enumerate(ALPHA[:nalpha(k)]))
+    for attempt in range(3):
+        seen = {}
+        for pi, perm in enumerate(perms):
+            files = {"m%d.rs" % slot: texts[i] for slot, i in enumerate(perm)}
+            tree = {"a": dict(files, **{"lib.rs": "// crate a\n"})}
+            if multi:
+                tree["b"] = {"lib.rs": btext}
+            rc, outs = real_outputs(d, tree, "typescript", multi, "p%d" % pi, pin=True)
+            key = tuple(sorted(outs.items()))
+            seen.setdefault(key, perm)
+            if len(seen) > 1:
+                (k1, p1), (k2, p2) = list(seen.items())[:2]
+                diff = [n for n in dict(k1) if dict(k1).get(n) != dict(k2).get(n)]
+                return True, "the items %r assigned to files m0..m%d.rs as %s and as %s (same inputs, %s mode) give different bytes in %s" % (
+                    [t.split("\n")[-2] if t.strip() else t for t in texts], k - 1, p1, p2, "folder" if multi else "single-file", diff or "file set"), payload
+    # library pipeline with explicit arrival orders
+    from vlib.harness import Replayer
+    nat = Replayer()
+    try:
+        files = [{"source": t, "crate_name": "a" if multi else "", "file_name": "a.ts" if multi else "out.ts", "file_path": "a/src/m%d.rs" % i} for i, t in enumerate(texts)]
         if multi:
-            tree["b"] = {"lib.rs": "".join("#[typeshare]\npub struct T%s { pub f1%d: u32 }\n" % (ch, j) for j, ch in enumerate(ALPHA))}
-        rc, outs = real_outputs(d, tree, "typescript", multi, "p%d" % pi, pin=True)
-        key = tuple(sorted(outs.items()))
-        seen.setdefault(key, perm)
-        if len(seen) > 1:
-            (k1, p1), (k2, p2) = list(seen.items())[:2]
-            diff = [n for n in dict(k1) if dict(k1).get(n) != dict(k2).get(n)]
-            return True, "the items %r assigned to files m0..m%d.rs as %s and as %s (same inputs, %s mode) give different bytes in %s" % (
-                [t.split("\n")[-2] if t.strip() else t for t in texts], k - 1, p1, p2, "folder" if multi else "single-file", diff or "file set"), payload
-    return False, "real binary: %d different splits of the items over files give byte-identical output" % len(perms), None
+            files.append({"source": btext, "crate_name": "b", "file_name": "b.ts", "file_path": "b/src/lib.rs"})
+        seen = {}
+        for perm in perms:
+            order = list(perm) + list(range(k, len(files)))
+            r = nat.ask({"op": "generate", "lang": "typescript", "multi_file": multi, "files": files, "order": order, "config": {}})
+            seen.setdefault(json_key(r.get("out", r)), perm)
+            if len(seen) > 1:
+                p1, p2 = list(seen.values())[:2]
+                return True, "the files %r arriving at the collector in order %s and in order %s (%s mode) give different bytes (library pipeline: real parser, +=, reconcile_aliases, generate_types)" % (
+                    [t.split("\n")[-2] for t in texts], p1, p2, "folder" if multi else "single-file"), payload
+    finally:
+        nat.close()
+    return False, "real binary: %d different splits of the items over files give byte-identical output, and so does every arrival order through the library" % len(perms), None
+
+
+def json_key(v):
+    import json
+    return json.dumps(v, sort_keys=True)
 
 
 def native_hash(d, lang, multi):
